@@ -88,6 +88,11 @@ func runWorker(p *Prop, tier, unit, tmp string, n int, skip []uint64, only int64
 	if mem == 0 {
 		mem = 4 << 20 // 4 GiB of address space
 	}
+	if p.MemKBUnit != nil {
+		if m := p.MemKBUnit(unit); m != 0 {
+			mem = m
+		}
+	}
 	var sk []string
 	for _, s := range skip {
 		sk = append(sk, strconv.FormatUint(s, 10))
